@@ -32,7 +32,7 @@ inductive Res (α : Type) where
   | err (msg : String)
   | oob
   | outOfFuel
-deriving Repr
+deriving Repr, DecidableEq
 
 def Res.bind {α β : Type} (r : Res α) (f : α → Res β) : Res β :=
   match r with
